@@ -1,5 +1,5 @@
 """C11 — gaussian profile delivers the configured volume per window and peaks on time."""
-from ..core import fbits
+from ..core import fbits, hx
 ID = "C11"
 PROPS = ["F1Verif.Props.C11", "F1Verif.Props.FactsC11"]
 RULE = ("engine A on gaussian.NewCalculator(...).For over window-aligned synthetic timestamps: volumes 10^2..10^6, repeat "
@@ -50,6 +50,10 @@ def corpus():
         scase(1000.0, 3600 * S, 60 * S, 1800 * S, 600 * S, "2,0,1,1", 4, 4),
         scase(1000.0, 3600 * S, 60 * S, 1800 * S, 600 * S, "1,0", 2, 4),
         scase(1000.0, 3600 * S, 60 * S, 1800 * S, 600 * S, "0.5,,2", 2, 2),
+        # the gaussian trigger on the command line: its rate function is made for the 100 ms sub-ticks of the
+        # distribution and must be ticked at that interval, whatever --iteration-frequency says
+        "cli mode=gaussian dur=%s conc=4 freq=%s timing=1" % (hx("1200ms"), hx("500ms")),
+        "cli mode=gaussian dur=%s conc=4 freq=%s dist=%s timing=1" % (hx("1300ms"), hx("200ms"), hx("none")),
     ]
 
 
@@ -79,12 +83,17 @@ def generate(rng, tier):
 
 def nontrivial_key(rec):
     a = rec["case"].split()
+    if a[0] == "cli":
+        return rec["case"]
     if a[6] != "-" or int(a[8]) > 2 * (int(a[2]) // max(1, int(a[3]))) - 1:
         return rec["case"]
     return None
 
 
 def compare(rec):
+    if rec["case"].startswith("cli "):
+        from . import _plan
+        return _plan.cli_compare(rec)
     if rec["model"] == "-":
         return None
     it, mt = rec["impl"].split(), rec["model"].split()
@@ -97,6 +106,9 @@ def distribution(recs):
     d = {"cases": 0, "with_weights": 0, "ticks_total": 0, "peak_off_grid": 0}
     for r in recs:
         a = r["case"].split()
+        if a[0] == "cli":
+            d["command_lines"] = d.get("command_lines", 0) + 1
+            continue
         d["cases"] += 1
         d["with_weights"] += a[6] != "-"
         d["ticks_total"] += int(a[8])
